@@ -37,3 +37,202 @@ class FormFactor(Contract):
 
     def ensures(self, data, stl, res):
         yield 'is_four_gaussians_plus_constant', Eq(res, formfactor_spec(data, stl))
+
+
+# ---------------------------------------------------------------------------
+# C08 / C07 -- StructureFactor and Uij2betaij
+
+def beta_spec(adp, c):
+    """beta_ij = 2 pi^2 a*_i a*_j U_ij, U given as [U11, U22, U33, U23, U13, U12]"""
+    U = [[adp[0], adp[5], adp[4]], [adp[5], adp[1], adp[3]], [adp[4], adp[3], adp[2]]]
+    cs = reciprocal_lengths(c)
+    pi = PI()
+    return [[2 * pi * pi * cs[i] * cs[j] * U[i][j] for j in range(3)] for i in range(3)]
+
+
+@register('structure')
+class Uij2BetaIJ(Contract):
+    name = 'Uij2betaij'
+    signature = [('adp', Vec(6, Real(-0.05, 0.05), as_list=True)), ('ucell', Cell())]
+
+    def requires(self, adp, c):
+        yield 'valid_cell', valid_cell(c)
+
+    def result_spec(self, adp, c):
+        return NPM.array(beta_spec(adp, c))
+
+    def ensures(self, adp, c, res):
+        yield from named_mat_eq('beta_is_2pi2_astar_astar_U', res, beta_spec(adp, c))
+        res = entries(res)
+        yield 'symmetric', conj(Eq(res[0][1], res[1][0]), Eq(res[0][2], res[2][0]), Eq(res[1][2], res[2][1]))
+
+
+def _random_op(rng):
+    """a point-group matrix as they occur in the tables (incl. hexagonal-axes 3/6-fold ones, which are not symmetric)"""
+    pool = [[[1, 0, 0], [0, 1, 0], [0, 0, 1]], [[0, -1, 0], [1, -1, 0], [0, 0, 1]], [[-1, 1, 0], [-1, 0, 0], [0, 0, 1]],
+            [[0, -1, 0], [1, 0, 0], [0, 0, 1]], [[0, 0, 1], [1, 0, 0], [0, 1, 0]], [[1, -1, 0], [1, 0, 0], [0, 0, 1]],
+            [[-1, 0, 0], [0, 1, 0], [0, 0, -1]], [[0, 1, 0], [1, 0, 0], [0, 0, -1]], [[1, -1, 0], [0, -1, 0], [0, 0, -1]]]
+    return [list(map(float, r)) for r in rng.choice(pool)]
+
+
+class _Atom:
+    def __init__(self, **kw):
+        self.__dict__.update(kw)
+
+
+class _SgRecord:
+    def __init__(self, rot, trans):
+        self.nsymop = len(rot)
+        self.rot = rot
+        self.trans = trans
+
+
+class _SgModule:
+    def __init__(self, rec):
+        self.rec = rec
+
+    def sg(self, sgname=None, sgno=None, cell_choice='standard'):
+        return self.rec
+
+
+def ff_symbol(atomtype, stl):
+    """FormFactor(atomtype, stl) as an uninterpreted function of stl per atom type (its contract --
+    the explicit four-Gaussian sum -- is discharged separately under C16)"""
+    if not symbolic_mode():
+        import xfab.structure as S
+        return float(S.FormFactor({'T0': 'C', 'T1': 'FE'}.get(atomtype, atomtype), stl))
+    c = T.ctx()
+    f = c.memo.setdefault(('ffuf', atomtype), T.z3.Function('FormFactor_' + atomtype, T.z3.RealSort(), T.z3.RealSort()))
+    import xfab.structure as S
+    real_t = {'T0': 'C', 'T1': 'FE'}.get(atomtype, atomtype)
+    c.ufnum['FormFactor_' + atomtype] = lambda s_, real_t=real_t: float(S.FormFactor(real_t, s_))
+    return T.R(f(T.lift(stl).z))
+
+
+def sf_spec(hkl, cell, ops, atoms, stl, ff):
+    """explicit structure-factor sum over atoms i and operations j (C08):
+       occ_i m_i / nsymop * (f_i + f'_i + i f''_i) * DW_ij * exp(2 pi i h.(R_j x_i + t_j))"""
+    pi = PI()
+    n = len(ops)
+    Fr, Fi = 0, 0
+    for a in atoms:
+        f = ff(a.atomtype, stl)
+        for (R, t) in ops:
+            if a.adp_type == 'Uiso':
+                dw = T.exp(-8 * pi ** 2 * a.adp * stl ** 2)
+            elif a.adp_type == 'Uani':
+                beta = beta_spec(a.adp, cell)
+                brot = mm(R, mm(beta, tr(R)))              # R beta R'  (tensor of the symmetry-equivalent atom)
+                bh = mv(brot, hkl)
+                dw = T.exp(-(hkl[0] * bh[0] + hkl[1] * bh[1] + hkl[2] * bh[2]))
+            else:
+                dw = 1
+            r = mv(R, a.pos)
+            r = [r[k] + t[k] for k in range(3)]
+            ph = 2 * pi * (hkl[0] * r[0] + hkl[1] * r[1] + hkl[2] * r[2])
+            s_, c_ = T.sin(ph), T.cos(ph)
+            w = a.occ * a.symmulti / n
+            Fr = Fr + dw * (c_ * (f + a.fp) - s_ * a.fpp) * w
+            Fi = Fi + dw * (s_ * (f + a.fp) + c_ * a.fpp) * w
+    return Fr, Fi
+
+
+def make_sf_contract(adp_types, disp_modes):
+    """StructureFactor on 2 atoms x 2 operations with fully symbolic data; adp type and the shape of the
+    dispersion table per atom are the concrete parameters of the instance"""
+    key = 'StructureFactor#adp=%s;disper=%s' % (','.join(str(x) for x in adp_types), ','.join(disp_modes))
+
+    class SF(Contract):
+        name = 'StructureFactor'
+        max_paths = 16
+        let_abstraction = False     # cos/sin/exp arguments must stay explicit to be matched with the spec's
+        signature = [('hkl', Vec(3, Int(-8, 8), as_list=True)), ('ucell', Cell())]
+        for _i in range(2):
+            signature += [('pos%d' % _i, Vec(3, Real(0, 1), as_list=True)), ('occ%d' % _i, Real(0.05, 1)),
+                          ('mult%d' % _i, Real(1, 8)), ('fp%d' % _i, Real(-1, 1)), ('fpp%d' % _i, Real(0, 1)),
+                          ('uiso%d' % _i, Real(0, 0.05)), ('uani%d' % _i, Vec(6, Real(-0.02, 0.05), as_list=True))]
+        for _j in range(2):
+            signature += [('R%d' % _j, Mat(3, 3, Real(-1, 1), sampler=_random_op)), ('t%d' % _j, Vec(3, Real(0, 1), as_list=True))]
+
+        def native_call(self, *vals):
+            """the real StructureFactor on concrete data: sg.sg is replaced by a record holding the two sampled
+            operations, atom types map to real table entries (T0 -> C, T1 -> FE)"""
+            import numpy as np
+            import xfab.structure as S
+            hkl, cell, atoms, ops = self.unpack(vals)
+            for a, real_t in zip(atoms, ('C', 'FE')):
+                a.atomtype = real_t
+                a.pos = np.array(a.pos, float)
+            disp = self.disper(atoms)
+            rec = _SgRecord([np.array(o[0], float) for o in ops], [np.array(o[1], float) for o in ops])
+            saved = S.sg
+            S.sg = _SgModule(rec)
+            try:
+                return S.StructureFactor(list(hkl), list(cell), 'XX', atoms, disp)
+            finally:
+                S.sg = saved
+
+        def unpack(self, args):
+            hkl, cell = args[0], args[1]
+            atoms = []
+            for i in range(2):
+                pos, occ, mult, fp, fpp, uiso, uani = args[2 + 7 * i: 9 + 7 * i]
+                at = adp_types[i]
+                adp = uiso if at == 'Uiso' else (uani if at == 'Uani' else 0.0)
+                mode = disp_modes[i]
+                atoms.append(_Atom(label='a%d' % i, atomtype='T%d' % i if symbolic_mode() else ('C', 'FE')[i], pos=pos, adp_type=at, adp=adp, occ=occ,
+                                   symmulti=mult, fp=fp if mode == 'present' else 0, fpp=fpp if mode == 'present' else 0))
+            ops = [(args[16], args[17]), (args[18], args[19])]
+            return hkl, cell, atoms, ops
+
+        def requires(self, *args):
+            yield 'valid_cell', valid_cell(args[1])
+
+        def disper(self, atoms):
+            if all(m == 'absent' for m in disp_modes):
+                return None
+            d = {}
+            for a, m in zip(atoms, disp_modes):
+                d[a.atomtype] = None if m != 'present' else [a.fp, a.fpp]
+            return d
+
+        def actuals(self, *args):
+            hkl, cell, atoms, ops = self.unpack(args)
+            self._atoms = atoms
+            return [hkl, cell, 'XX', atoms, self.disper(atoms)]
+
+        def extra_ns(self, *args):
+            hkl, cell, atoms, ops = self.unpack(args)
+            rec = _SgRecord([NPM.array(entries(o[0])) for o in ops], [NPM.array(list(o[1])) for o in ops])
+            return {'sg': _SgModule(rec), 'FormFactor': ff_symbol}
+
+        def ensures(self, *args):
+            res = args[-1]
+            args = args[:-1]
+            hkl, cell, atoms, ops = self.unpack(args)
+            stl = Sintl_spec_symbol(cell, hkl)
+            Fr, Fi = sf_spec(hkl, cell, [(entries(R), list(t)) for R, t in ops], atoms, stl, ff_symbol)
+            yield 'real_part_is_explicit_sum', Eq(res[0], Fr)
+            yield 'imaginary_part_is_explicit_sum', Eq(res[1], Fi)
+    SF.key = key
+    SF.__name__ = 'SF_' + key
+    return SF
+
+
+def Sintl_spec_symbol(cell, hkl):
+    """the value the sintl contract stands for at a call site: memoised per (cell, hkl) so that the
+    code's call and the spec refer to the same symbol"""
+    if not symbolic_mode():
+        import xfab.tools as tools
+        return float(tools.sintl(cell, hkl))
+    from pyvc.engine import REGISTRY
+    k = REGISTRY[('tools', 'sintl')]
+    return k.fresh_result(T.ctx().fresh('spec_sintl'), cell, hkl)
+
+
+SF_VARIANTS = []
+for _adp in (('Uiso', 'Uani'), ('Uani', None), (None, 'Uiso'), ('Uani', 'Uani')):
+    for _disp in (('absent', 'absent'), ('present', 'none_entry'), ('present', 'present')):
+        _k = make_sf_contract(_adp, _disp)
+        register('structure')(_k)
+        SF_VARIANTS.append(_k.key)
